@@ -883,6 +883,97 @@ func runConstRel(c *core.Ctx) []core.Obligation {
 		})
 		add("RectBounder.AddPoint:robust-normal", c.Pos(fn.Pos()), core.FuncName(fn), ok, "the normal whose length is tested against 1.91346e-15 is (A - B) x (A + B)", why)
 	}
+	// (7) RectBounder.AddPoint, degenerate normal: the edge may go anywhere (bound := full) exactly when A and B are nearly
+	// ANTIPODAL, i.e. A.B < 0, equivalently |A-B| > |A+B|; for nearly identical points the endpoints' rectangle is enough
+	if fn := c.Fn("s2", "RectBounder", "AddPoint"); fn != nil {
+		ok, why := false, "the assignment of the full rectangle in the degenerate-normal branch was not found"
+		core.AllInstrs(fn, func(in ssa.Instruction) {
+			st, isSt := in.(*ssa.Store)
+			if !isSt {
+				return
+			}
+			call, isCall := st.Val.(*ssa.Call)
+			if !isCall || core.StaticCallee(call) == nil || core.StaticCallee(call).Name() != "FullRect" {
+				return
+			}
+			if fr, isF := core.AsFieldAddr(st.Addr); !isF || fr.Name != "bound" {
+				return
+			}
+			// the branch that immediately controls the store
+			for _, b := range fn.Blocks {
+				iff, isIf := b.Instrs[len(b.Instrs)-1].(*ssa.If)
+				if !isIf || len(b.Succs) != 2 {
+					continue
+				}
+				edge := -1
+				if b.Succs[0] == st.Block() {
+					edge = 0
+				} else if b.Succs[1] == st.Block() {
+					edge = 1
+				}
+				if edge < 0 {
+					continue
+				}
+				bo, isBo := iff.Cond.(*ssa.BinOp)
+				if !isBo {
+					why = "the condition of the full-rectangle branch was not recognised"
+					continue
+				}
+				op := bo.Op
+				if edge == 1 { // store on the false edge: negate
+					op = map[token.Token]token.Token{token.LSS: token.GEQ, token.LEQ: token.GTR, token.GTR: token.LEQ, token.GEQ: token.LSS}[op]
+				}
+				nameOf := func(v ssa.Value) string {
+					if cl, isC := v.(*ssa.Call); isC && core.StaticCallee(cl) != nil {
+						return core.StaticCallee(cl).Name()
+					}
+					return ""
+				}
+				innerOf := func(v ssa.Value) string { // Norm2(x) / Norm(x): how x was built (Sub or Add)
+					cl, isC := v.(*ssa.Call)
+					if !isC || len(cl.Call.Args) == 0 {
+						return ""
+					}
+					arg := cl.Call.Args[0]
+					if ld, isLd := arg.(*ssa.UnOp); isLd {
+						if al, isAl := ld.X.(*ssa.Alloc); isAl {
+							for _, r := range *al.Referrers() {
+								if s2, isS := r.(*ssa.Store); isS && s2.Addr == ssa.Value(al) {
+									arg = s2.Val
+								}
+							}
+						}
+					}
+					return nameOf(arg)
+				}
+				switch {
+				case nameOf(bo.X) == "Dot":
+					k, isK := bo.Y.(*ssa.Const)
+					if isK && k.Value != nil && k.Value.String() == "0" && (op == token.LSS || op == token.LEQ) {
+						ok = true
+					} else {
+						why = "the full rectangle is assigned when A.B is NOT negative, i.e. for nearly identical points, while nearly antipodal points get only the rectangle of their two endpoints: an edge through a pole or around the far side of the sphere is not covered by the bound"
+					}
+				case (nameOf(bo.X) == "Norm2" || nameOf(bo.X) == "Norm") && nameOf(bo.Y) == nameOf(bo.X):
+					x, y := innerOf(bo.X), innerOf(bo.Y)
+					bigger, smaller := x, y // op GTR/GEQ: X > Y
+					if op == token.LSS || op == token.LEQ {
+						bigger, smaller = y, x
+					}
+					if bigger == "Sub" && smaller == "Add" {
+						ok = true
+					} else if bigger == "Add" && smaller == "Sub" {
+						why = "the full rectangle is assigned when |A-B| < |A+B|, i.e. for nearly IDENTICAL points, while nearly antipodal points (|A-B| > |A+B|) get only the rectangle of their two endpoints: an edge through a pole or around the far side of the sphere is not covered by the bound"
+					} else {
+						why = "the condition of the full-rectangle branch was not recognised"
+					}
+				default:
+					why = "the condition of the full-rectangle branch was not recognised"
+				}
+			}
+		})
+		add("RectBounder.AddPoint:antipodal-branch", c.Pos(fn.Pos()), core.FuncName(fn), ok, "the full rectangle is assigned exactly on the nearly-antipodal side (A.B < 0)", why)
+	}
 	_ = sort.Strings
 	return obs
 }
